@@ -1,0 +1,17 @@
+//go:build !verif
+
+package pubsub
+
+import (
+	pb "github.com/libp2p/go-libp2p-pubsub/pb"
+	"github.com/libp2p/go-libp2p/core/peer"
+)
+
+// No-op counterparts of the verification hooks (see verif_hooks_on.go).
+
+func verifShufflePeers([]peer.ID) bool         { return false }
+func verifShufflePeerInfo([]*pb.PeerInfo) bool { return false }
+func verifShuffleStrings([]string) bool        { return false }
+func verifPick(idx, n int) int                 { return idx }
+func verifCoin(float64) (bool, bool)           { return false, false }
+func verifYield(string, peer.ID)               {}
